@@ -151,6 +151,13 @@ type Sched struct {
 // S is the execution in progress (one per process at a time).
 var S *Sched
 
+var epoch uint64
+
+// Epoch numbers the executions of this process. Shim objects that may live in
+// package-level variables compare it with the epoch they were last used in and
+// reset themselves, so that no state leaks from one execution into the next.
+func Epoch() uint64 { return epoch }
+
 type abortT struct{}
 
 // ---- hashing ----------------------------------------------------------------
@@ -244,6 +251,7 @@ func Run(opt Options, strat Strategy, body func()) *Result {
 	s.epoch = time.Date(2030, 1, 1, 0, 0, 0, 0, time.UTC)
 	s.explore = !opt.NoExplore
 	s.res.PrunedAt = -1
+	epoch++
 	S = s
 	s.timerG = &G{ID: -1, stable: 0x7177, Name: "timers", isTimer: true}
 	g0 := s.newG("main", 0xa5a5)
